@@ -82,6 +82,8 @@ def _post(cfg, collected):
     extra = sorted(map(repr, reached - lang))
     if extra:
         return False, "language:reachable-program-outside-the-bounded-language", {"programs": extra[:5]}
+    if target is not None and kind == "full_initializer" and not target:
+        target = None  # no program of L_d has all branches ending at depth d: nothing to be exact about
     if target is not None:
         missing = sorted(map(repr, target - reached))
         if missing:
@@ -123,6 +125,9 @@ def obligations(tier: str):
             add(f"pigrow_{fxn}_d{d}", fixture=fxn, creator="pi", max_depth=d)
     for d in (2, 3) + ((4,) if True else ()):
         add(f"full_f12_d{d}", fixture="f12", creator="full_initializer", max_depth=d, timeout=300)
+    for d in (1, 2, 3):
+        add(f"full_f13_d{d}", fixture="f13", creator="full_initializer", max_depth=d, timeout=300)
+        add(f"grow_f13_d{d}", fixture="f13", creator="grow", max_depth=d, timeout=300)
     for d in (2, 3):
         add(f"grow_f12_d{d}", fixture="f12", creator="grow", max_depth=d)
         add(f"pigrow_f12_d{d}", fixture="f12", creator="pi", max_depth=d)
